@@ -10,19 +10,28 @@ use crate::rng::{hash64, hash_str, Rng};
 use crate::solo::*;
 use crate::world::*;
 
+/// The locks a call ended up holding, in the order in which it (last) took them: a lock that is
+/// given back and taken again inside the call (a back-off) counts from its last acquisition, so a
+/// call that holds a higher lock while it re-takes a lower one shows up as an inversion.
 fn acquisition_order(ops: &[RawRec]) -> Vec<LockId> {
-	let mut v = Vec::new();
+	let mut held: Vec<LockId> = Vec::new();
+	let mut at_last_acquisition: Vec<LockId> = Vec::new();
 	for o in ops {
 		match o.op {
-			Op::Unlock => break,
+			Op::Unlock => {
+				if let Some(p) = held.iter().rposition(|l| *l == o.lock) {
+					held.remove(p);
+				}
+			}
 			Op::Lock | Op::Try => {
 				if o.ok {
-					v.push(o.lock)
+					held.push(o.lock);
+					at_last_acquisition = held.clone();
 				}
 			}
 		}
 	}
-	v
+	at_last_acquisition
 }
 
 /// Sorting collections built by the constructors that skip the duplicate check (`new`) over
@@ -197,7 +206,7 @@ pub fn run(cfg: &RunCfg) -> Report {
 						targets.push(Target::Coll(k, nested));
 					}
 					if rr.chance(1, 4) {
-						targets.push(Target::PoisColl(list.clone()));
+						targets.push(Target::PoisColl(CollKind::Boxed, list.clone()));
 					}
 					for t in targets {
 						let mode = if readable && rr.chance(1, 2) { Mode::Shared } else { Mode::Excl };
@@ -312,6 +321,6 @@ pub fn run(cfg: &RunCfg) -> Report {
 			});
 		}
 	});
-	rep.rule = "per universe (2-4 leaf locks of one family + up to 2 owned/boxed/retrying units, <= 5 members): every permutation and (sampled) every prefix of length >= 2, as boxed and as ref collection, flat, with a nested boxed/ref/retrying inner collection, and poisonable-wrapped; read and write; guard/unlock/scoped; unrelated allocations in between; the blocking acquisition order of every call is read from the raw-lock log and folded into one precedence relation that must stay antisymmetric; members of an owned unit must stay contiguous; evaluations = collections locked; distinct_nontrivial = distinct (universe, acquisition order) pairs observed".into();
+	rep.rule = "per universe (2-4 leaf locks of one family + up to 2 owned/boxed/retrying units, <= 5 members): every permutation and (sampled) every prefix of length >= 2, as boxed and as ref collection, flat, with a nested boxed/ref/retrying inner collection, and poisonable-wrapped; read and write; guard/unlock/scoped; unrelated allocations in between; the order in which every call (last) took the locks it ends up holding is read from the raw-lock log (a lock given back and re-taken inside the call counts from its last acquisition) and folded into one precedence relation that must stay antisymmetric; members of an owned unit must stay contiguous; evaluations = collections locked; distinct_nontrivial = distinct (universe, acquisition order) pairs observed".into();
 	rep
 }
